@@ -398,6 +398,10 @@ class Zeroconf(QuietLogger):
         for i in range(_REGISTER_BROADCASTS):
             if i != 0:
                 await asyncio.sleep(millis_to_seconds(interval))
+                if ttl is None and self.registry.async_get_info_name(info.key) is not info:
+                    # The service was unregistered (or replaced) while we were
+                    # waiting: announcing it again would undo its goodbyes
+                    return
             self.async_send(self.generate_service_broadcast(info, ttl, broadcast_addresses))
 
     def generate_service_broadcast(
@@ -505,12 +509,15 @@ class Zeroconf(QuietLogger):
         """
         # Send Goodbye packets https://datatracker.ietf.org/doc/html/rfc6762#section-10.1
         out = self.generate_unregister_all_services()
-        if not out:
-            return
-        for i in range(_REGISTER_BROADCASTS):
-            if i != 0:
-                await asyncio.sleep(millis_to_seconds(_UNREGISTER_TIME))
-            self.async_send(out)
+        while out:
+            for i in range(_REGISTER_BROADCASTS):
+                if i != 0:
+                    await asyncio.sleep(millis_to_seconds(_UNREGISTER_TIME))
+                self.async_send(out)
+            # A registration that was still probing when the goodbyes started
+            # may have completed, and announced its service, while we were
+            # waiting between them: withdraw it as well
+            out = self.generate_unregister_all_services()
 
     def unregister_all_services(self) -> None:
         """Unregister all registered services.
